@@ -117,6 +117,26 @@ Example C19_abandoned_loop_nonvacuous :
                SLine 510; SNext []; SReturn None; SEndProg] 100 = ([1; 1; 2; 3], Finished).
 Proof. vm_compute. reflexivity. Qed.
 
+(* ---- IF c THEN n / ELSE n: the implicit GOTO, for every line number (0 and 65529 included) ------------- *)
+Theorem C19_if_then_jump : forall code st c n z j,
+  nth_error code (pc st) = Some (SIf c (Some n)) -> eval (ds st) c = EV z -> z <> 0 ->
+  find_line code n = Some j -> step code st = Go (set_pc st j) [].
+Proof. exact if_then_jump. Qed.
+Print Assumptions C19_if_then_jump.
+
+Theorem C19_if_else_jump : forall code st c tj k n j,
+  nth_error code (pc st) = Some (SIf c tj) -> eval (ds st) c = EV 0 ->
+  find_else_from (skipn (S (pc st)) code) (S (pc st)) 0 = ElseAt k (Some n) ->
+  find_line code n = Some j -> step code st = Go (set_pc st j) [].
+Proof. exact if_else_jump. Qed.
+Print Assumptions C19_if_else_jump.
+
+(* 0 PRINT 7:END / 10 IF 1 THEN 0 , started at line 10: the jump to line 0 is taken *)
+Example C19_if_line0_nonvacuous :
+  run [SLine 0; SPrint (EConst 7); SEnd; SLine 10; SIf (EConst 1) (Some 0); SPrint (EConst 11); SEndProg] 20 (init_at 3)
+  = ([7], Finished).
+Proof. vm_compute. reflexivity. Qed.
+
 (* ---- jumps and NEXT lists, for all programs ----------------------------------------------------------
    (outside the structured language of C19_nested_refines; these hold in every state of every program) *)
 Theorem C19_goto : forall code st n j,
